@@ -260,6 +260,11 @@ func runC18(seed int64, tier string, outDir string) *result {
 				fail("clear-part", "C18:block-unreadable", "generic decode failed", nil)
 				continue
 			}
+			// two entries that differ only in their links never share a nonce (a shared nonce under one key
+			// would let an observer XOR the two sealed link lists)
+			if n1, n2 := fmt.Sprint(m1["enc_links_nonce"]), fmt.Sprint(m2["enc_links_nonce"]); n1 == n2 {
+				fail("clear-part", "C18:nonce-reuse", "two entries with the same payload and clock but different links are sealed under the same nonce", c08Describe("pair", "link", o1.(*entry.Entry), o1.GetHash(), r1))
+			}
 			for _, k := range []string{"enc_links", "enc_links_nonce", "sig"} {
 				delete(m1, k)
 				delete(m2, k)
@@ -268,6 +273,23 @@ func runC18(seed int64, tier string, outDir string) *result {
 				fail("clear-part", "C18:clear-part-depends-on-links", fmt.Sprintf("clear fields differ: %v vs %v", m1, m2), c08Describe("pair", "link", o1.(*entry.Entry), o1.GetHash(), r1))
 			}
 			pairList.add(fmt.Sprintf("Build_pair_case %s %s", c08Bytes(r1), c08Bytes(r2)), "pair "+o1.GetHash().String()+" "+o2.GetHash().String())
+		}
+	}
+
+	// ---- an entry with several hundred links (an append on a log with many un-merged heads) ----
+	{
+		var many []cid.Cid
+		for i := 0; i < 320; i++ {
+			many = append(many, c08Cid(rng, false))
+		}
+		in := &entry.Entry{Payload: []byte("many-links"), LogID: "c18", Next: many, Refs: many[:40]}
+		if out, err := entry.CreateEntryWithIO(ctx, api, idents[0], in, nil, lio); err != nil {
+			fail("write", "C18:write-error", "entry with 320 links: "+err.Error(), nil)
+		} else {
+			oe := out.(*entry.Entry)
+			var links []cid.Cid
+			links = append(append(links, oe.Next...), oe.Refs...)
+			checkBlock("many-links", oe, links)
 		}
 	}
 
